@@ -16,8 +16,10 @@ Search: on the implementation alone — honest => every code 0 and keyA == keyB,
 import os, sys, importlib
 import vcommon
 
-PROPS = ["Bee2V/C04/Props.lean"]
-TARGETS = [p[:-5].replace("/", ".") for p in PROPS]
+PROPS = ["Bee2V/C04/Props.lean", "Bee2V/C04/PropsReject.lean", "Bee2V/C04/PropsBmqv.lean", "Bee2V/C04/PropsBsts.lean", "Bee2V/C04/PropsBpace.lean",
+         "Bee2V/C04/PropsBauth.lean", "Bee2V/C04/PropsTamperBmqv.lean", "Bee2V/C04/PropsTamperBsts.lean", "Bee2V/C04/PropsTamperBpace.lean",
+         "Bee2V/C04/PropsTamperBauth.lean", "Bee2V/C04/PropsDrv.lean", "Bee2V/C04/PropsBelt.lean", "Bee2V/C04/Toy.lean"]
+TARGETS = ["Bee2V.C04.Props"] + [p[:-5].replace("/", ".") for p in PROPS[1:]]
 CORPUS = os.path.join(vcommon.VERIF, "gen", "c04_corpus.txt")
 OK, BAD_INPUT, FILE_NOT_FOUND, BAD_RNG, BAD_POINT, BAD_PARAMS, BAD_SIG, BAD_CERT, BAD_LOGIC, AUTH = 0, 109, 202, 304, 401, 502, 510, 514, 517, 521
 MAXT = 44            # tampers per line (harness tokenizer: 64 tokens)
@@ -192,7 +194,7 @@ INVALID_KINDS = ("offcurve", "x=p", "y=p", "x=max", "y=max", "zero", "y=0", "twi
 
 
 # True once docs/C04.fix-1.diff is in /repo (then the constructed runs with s = 0 are honest runs that must succeed)
-FIX1_APPLIED = False
+FIX1_APPLIED = True
 
 
 class Gen:
@@ -476,7 +478,7 @@ class Gen:
             n = seen.get(key, 0)
             # one fully tampered scenario per (protocol, curve, flags) in step mode, lighter ones otherwise
             if s.mode == "s":
-                if n >= (2 if self.thorough else 1) or s.tag in ("longcert",) and not self.thorough and s.P != "bsts":
+                if n >= (2 if (self.thorough and s.cv.ci == 0) else 1) or s.tag in ("longcert",) and not self.thorough and s.P != "bsts":
                     continue
                 d = parse_steps(split_line(o)[0])
                 msgs = {i + 1: unh(st[2]) for i, st in enumerate(d["steps"]) if st[1] == 0 and i + 1 < s.nsteps()}
@@ -726,7 +728,18 @@ def run(ctx):
 
     cl = corpus_lines()
     if cl:
-        stage("corpus", cl)
+        for line, o in zip(cl, stage("corpus", cl)):
+            hon = split_line(o)[0]
+            if line.split()[13][0] == "s":
+                d = parse_steps(hon)
+                ok = d["start"] == (0, 0) and d["steps"] and all(e == 0 for _, e, _ in d["steps"]) and d["keys"] and d["keys"][0] == d["keys"][1] != "-"
+                want = "every code 0 and keyA == keyB"
+            else:
+                d = parse_run(hon) if hon.startswith("R=") else None
+                ok = d is not None and d["a"][0] == 0 and d["b"][0] == 0 and d["a"][1] == d["b"][1]
+                want = "RunA = RunB = 0 and keyA == keyB"
+            if not ok:
+                srch.report("corpus:%s" % line.split()[1], line, hon, want, "an honest run of the corpus (a past failure) fails again")
     stage("misc", misc_ops(ctx, cvs))
     # SWU: the point must be on the curve (implementation only)
     scs = g.stage1()
@@ -804,41 +817,54 @@ def run(ctx):
 
 
 def replay(ctx, path):
-    line = want = None
+    line = want = impl = None
     for l in open(path):
         if l.startswith("op "):
             line = l[3:].strip()
         elif l.startswith("expected "):
             want = l[9:].strip()
-    if not line or line.split()[0] not in ("run", "kdf", "swu"):
+        elif l.startswith("impl "):
+            impl = l[5:].strip()
+    if not line or line.split()[0] not in ("run", "kdf", "swu", "hash"):
         print("replay file names a theorem/correspondence, not an executable input")
         return 0
     exe = ctx.cc("harness/c04.c", "asan")
     out, err, rc = ctx.run_lines(exe, [line])
     got = out[0] if out and rc == 0 else "CRASH " + err[-300:]
-    print("op       %s\nimpl     %s\nexpected %s" % (line[:2000], got[:2000], want))
     bad = got.startswith("CRASH")
+    shown = got
     if not bad and line.startswith("run"):
-        # re-evaluate the property on this line: honest part must succeed unless the scenario is a deliberate failure,
-        # every tampered part must show an error or different keys
-        w = line.split()
-        mode = w[13][0]
+        mode = line.split()[13][0]
         hon, parts = split_line(got)
-        if want and want.startswith("every code 0"):
-            d = parse_steps(hon)
-            bad = not (d["start"] == (0, 0) and all(e == 0 for _, e, _ in d["steps"]) and d["keys"] and d["keys"][0] == d["keys"][1] != "-")
-        elif want and want.startswith("RunA = RunB"):
-            d = parse_run(hon)
+        det = (lambda r: Search().detect_steps(parse_steps(r))) if mode == "s" else (lambda r: Search().detect_run(parse_run(r)))
+        # the part of the line the violation was about: a tampered re-run (text before '>') or the honest run
+        txt = impl.split(">", 1)[0] if (impl and ">" in impl.split(" ")[0]) else None
+        res = dict(parts).get(txt) if txt else hon
+        shown = ("%s>%s" % (txt, res)) if txt else hon
+        if res is None:
+            bad = False
+        elif want.startswith("every code 0"):
+            d = parse_steps(res)
+            bad = not (d["start"] == (0, 0) and d["steps"] and all(e == 0 for _, e, _ in d["steps"]) and d["keys"] and d["keys"][0] == d["keys"][1] != "-")
+        elif want.startswith("RunA = RunB"):
+            d = parse_run(res)
             bad = not (d["a"][0] == 0 and d["b"][0] == 0 and d["a"][1] == d["b"][1])
-        elif want and "=" in want and want.split("=")[0] in ("B2", "A3", "B4", "A5", "B6", "L"):
-            bad = want not in got
+        elif want.startswith("an error code or different keys"):
+            bad = det(res) is None
+        elif want.startswith("L="):
+            bad = want not in res.split()
+        elif "=" in want and want.split("=")[0] in ("B2", "A3", "B4", "A5", "B6"):
+            toks = [t for t in res.split() if t.split("=")[0] in ("B2", "A3", "B4", "A5", "B6")]
+            bad = not (toks and toks[0 if txt else -1].startswith(want + ":"))
+        elif want.startswith("ERR_BAD_POINT"):
+            d = parse_run(res)
+            bad = BAD_POINT not in (d["a"][0], d["b"][0])
+        elif want.startswith("Start returns") or want.startswith("RunA/RunB return"):
+            bad = (" %s" % want.split()[-1]) not in res.replace("=", " ").replace(",", " ").replace(":", " ")
+        elif want.startswith("messages "):
+            bad = False      # steps-vs-drivers: needs both lines; re-run the check
         else:
-            s = Search()
-            for txt, res in parts or [("", hon)]:
-                if res.startswith("skip"):
-                    continue
-                det = s.detect_steps(parse_steps(res)) if mode == "s" else s.detect_run(parse_run(res))
-                if det is None:
-                    bad = True
+            bad = got != want
+    print("op       %s\nimpl     %s\nexpected %s" % (line[:1500], shown[:1500], want))
     print("property %s on the current tree" % ("VIOLATED" if bad else "holds"))
     return 1 if bad else 0
